@@ -376,7 +376,7 @@ func init() {
 			"one application write at a time (overlapping writes belong to C17); a read or flush may be started while a write is held by the transport",
 			"masking keys are not required to be distinct, only present and correctly applied",
 		},
-		NumCases:    func(tier, build string) int { return vf.Tiered(tier, 2000, 1000000) },
+		NumCases:    func(tier, build string) int { return vf.Tiered(tier, 10000, 1000000) },
 		Floor:       func(tier string) int { return vf.Tiered(tier, 300, 5000) },
 		CaseTimeout: 30 * time.Second,
 		Run:         runC16,
